@@ -27,6 +27,8 @@ T0=$(date +%s)
 OUT=$(bin/check $PID $TIER 2>&1); RC=$?
 T1=$(date +%s)
 git -C /repo checkout -- .
+# restore evidence: what is committed must come from runs on the unchanged tree
+git -C /verif checkout -- evidence 2>/dev/null; git -C /verif clean -fdq evidence/replays 2>/dev/null
 NV=$(echo "$OUT" | grep -c '^VIOLATION')
 FIRST=$(echo "$OUT" | grep -A1 '^VIOLATION' | head -2 | tr '\n' ' ' | cut -c1-400)
 echo "check $PID $TIER: exit=$RC violations=$NV wall=$((T1-T0))s"
